@@ -109,6 +109,10 @@ func (x *Exec) evalCall(call *ast.CallExpr, st *State) []Term {
 		return x.callFuncValue(call, st)
 	}
 	x.countCall(st, fn)
+	if op, ok := lockMethods[extName(fn)]; ok {
+		x.callLock(call, op, st)
+		return nil
+	}
 	sig := fn.Type().(*types.Signature)
 	// receiver
 	var recv *Term
@@ -587,8 +591,29 @@ func (x *Exec) callFuncValue(call *ast.CallExpr, st *State) []Term {
 // (function, arguments, invocation counter); the invocation is recorded in the ghost trace.
 func (x *Exec) applyFn(st *State, f Term, sig *types.Signature, args []Term, pos token.Pos) []Term {
 	x.recordEvent(st, "call", append([]Term{f}, args...))
+	x.applySites(st, f, sig, args, pos)
 	var out []Term
 	n := x.ghostCounter(st, "invocations")
+	defer func() {
+		// ghost record of the most recent application (readable in contracts: lastfn(), lastarg(i), lastres(i))
+		if x.applyTypes == nil {
+			x.applyTypes = map[string]types.Type{}
+		}
+		st.ghost["lastfn"] = f
+		x.applyTypes["lastfn"] = sig
+		for i, a := range args {
+			k := fmt.Sprintf("lastarg:%d", i)
+			st.ghost[k] = a
+			if i < sig.Params().Len() {
+				x.applyTypes[k] = sig.Params().At(i).Type()
+			}
+		}
+		for i, r := range out {
+			k := fmt.Sprintf("lastres:%d", i)
+			st.ghost[k] = r
+			x.applyTypes[k] = sig.Results().At(i).Type()
+		}
+	}()
 	for i := 0; i < sig.Results().Len(); i++ {
 		rt := sig.Results().At(i).Type()
 		name := fmt.Sprintf("apply%d_%s", i, mangle(typeTagString(sig)))
@@ -663,7 +688,7 @@ func isErrorMethod(fn *types.Func) bool {
 }
 
 func isRepoObj(o types.Object) bool {
-	return o.Pkg() != nil && (strings.HasPrefix(o.Pkg().Path(), "github.com/vektra/mockery/") || strings.HasPrefix(o.Pkg().Path(), "verifcorpus/"))
+	return o.Pkg() != nil && isRepoPath(o.Pkg().Path())
 }
 
 func (x *Exec) ifaceMethodContract(fn *types.Func) *Contract { return nil }
@@ -969,4 +994,30 @@ func (x *Exec) doReturn(fr *frame, st *State, vals []Term, pos token.Pos) {
 		return
 	}
 	fr.returns = append(fr.returns, &retState{st: st})
+}
+
+// applySites: obligations of "site $apply: e" clauses, checked at every call through a function value
+// ($fn is the function value, $0.. its arguments).
+func (x *Exec) applySites(st *State, f Term, sig *types.Signature, args []Term, pos token.Pos) {
+	if x.contract == nil {
+		return
+	}
+	for _, s := range x.contract.Sites {
+		if s.Site != "$apply" {
+			continue
+		}
+		env := x.funcEnv(st)
+		env.locals = true
+		env.binds["$fn"] = bound{f, sig}
+		for i, a := range args {
+			if i < sig.Params().Len() {
+				t := sig.Params().At(i).Type()
+				env.binds[fmt.Sprintf("$%d", i)] = bound{a, t}
+			}
+		}
+		g := x.specBool(env, s)
+		o := x.emit(st, "site", s.Site+labelSuffix(s.Label), g, s.Props, "at every call through a function value: "+s.Text, pos)
+		o.ClauseText = s.Text
+		x.siteCount[s.Site]++
+	}
 }
